@@ -17,7 +17,10 @@ LAYOUTS = {
     "one_per_block": [(0, 0), (1, 3)],
     "two_in_block": [(0, 0), (0, 1)],
     "three_mixed": [(0, 1), (1, 2), (1, 2)],
+    # one haplotype's leaf edge (edge 0) persists while the other changes: two blocks share it
+    "shared_edge": [(0, 0), (1, 0), (1, 3)],
 }
+BLOCK_EDGES = {"shared_edge": [[0, 1], [0, 3]]}
 
 
 def h_realloc(ctx, layout, segsites, through="infer+rescale"):
@@ -33,17 +36,18 @@ def h_realloc(ctx, layout, segsites, through="infer+rescale"):
         obj.mutation_phase = npx.ones(nm)
         obj.mutation_edges = np.array([e for b, e in muts] + [4], dtype=np.int32)
         obj.mutation_nodes = obj.mutation_edges.copy()
-        obj.block_edges = np.array([[0, 1], [2, 3]], dtype=np.int32)
+        obj.block_edges = np.array(BLOCK_EDGES.get(layout, [[0, 1], [2, 3]]), dtype=np.int32)
         obj.block_nodes = np.array([[6, 6], [7, 8]], dtype=np.int32)
         obj.block_likelihoods = npx.zeros((2, 2))
         obj.edge_children = np.arange(6, dtype=np.int32)
         obj.edge_parents = np.array([6, 7, 6, 8, 7, 8], dtype=np.int32)
+        unph_edges = set(int(x) for x in obj.block_edges.ravel())
         lik = {}
         for nm_ in ("edge_likelihoods", "sizebiased_likelihoods"):
             a = npx.zeros((6, 2))
             for e in range(6):
                 a[e, 1] = sym(f"{nm_[:2]}span{e}", "pos")
-                if e < 4:   # unphased leaf edges: the input count is the singleton count
+                if e in unph_edges:   # unphased leaf edges: the input count is the singleton count
                     a[e, 0] = float(sum(1 for b, ee in muts if ee == e))
                 else:
                     a[e, 0] = sym(f"{nm_[:2]}y{e}", "nonneg")
@@ -84,13 +88,26 @@ def h_realloc(ctx, layout, segsites, through="infer+rescale"):
         other = obj.sizebiased_likelihoods if segsites else obj.edge_likelihoods
         before = lik["edge_likelihoods" if segsites else "sizebiased_likelihoods"]
         before_other = lik["sizebiased_likelihoods" if segsites else "edge_likelihoods"]
-        for e in (4, 5):
+        for e in sorted(set(range(6)) - unph_edges):
             ctx.prove(f"realloc:phased_edge[{e}]_unchanged", Q.of(used[e, 0]) == before[e, 0])
         for e in range(6):
             ctx.prove(f"realloc:span[{e}]_unchanged", Q.of(used[e, 1]) == before[e, 1])
             ctx.prove(f"realloc:other_array[{e}]_untouched",
                       (Q.of(other[e, 0]) == before_other[e, 0]))
+        # every unphased edge receives, from each singleton of each block it belongs to, the
+        # fitted probability of that singleton lying on it
+        want = {e: Q.of(0) for e in unph_edges}
+        for m, (b, _) in enumerate(muts):
+            i, j = int(obj.block_edges[b, 0]), int(obj.block_edges[b, 1])
+            want[i] = want[i] + phases[m]
+            want[j] = want[j] + (1 - phases[m])
+        for e in sorted(unph_edges):
+            ctx.prove(f"realloc:edge[{e}]:sum_of_fitted_probabilities", Q.of(used[e, 0]) == want[e])
+        ctx.prove("realloc:total_is_number_of_singletons",
+                  sum((Q.of(used[e, 0]) for e in sorted(unph_edges)), Q.of(0)) == len(muts))
         for b in (0, 1):
+            if layout in BLOCK_EDGES:
+                break
             k = sum(1 for bb, _ in muts if bb == b)
             i, j = int(obj.block_edges[b, 0]), int(obj.block_edges[b, 1])
             ctx.prove(f"realloc:block[{b}]:total_is_number_of_singletons",
@@ -104,11 +121,11 @@ def h_realloc(ctx, layout, segsites, through="infer+rescale"):
         for m, (b, _) in enumerate(muts):
             placed = int(obj.mutation_edges[m])
             k = sum(1 for bb, _ in muts if bb == b)
-            if k == 1:
+            if k == 1 and layout not in BLOCK_EDGES:
                 ctx.prove(f"realloc:mutation[{m}]:placed_edge_gets_larger_share",
                           Q.of(used[placed, 0]) >= Q.of(1) / 2)
             ctx.tag("flipped" if placed == int(obj.block_edges[b, 1]) else "kept")
-        if layout != "one_per_block":
+        if layout not in ("one_per_block",) and layout not in BLOCK_EDGES:
             # several singletons in a block: the placed-edge shares add up
             for b in (0, 1):
                 ms = [m for m, (bb, _) in enumerate(muts) if bb == b]
@@ -168,7 +185,8 @@ def replay(payload):
     from tsdate import variational, phasing
     from symx import skeletons as SK
     bad = []
-    for ts in (SK.diploid_cherry(), SK.diploid_two_tree(), _many_singletons()):
+    for ts in (SK.diploid_cherry(), SK.diploid_two_tree(), SK.diploid_three_tree(),
+               _many_singletons()):
         for seg in (False, True):
             ep = variational.ExpectationPropagation(ts, mutation_rate=0.1, singletons_phased=False)
             captured = {}
